@@ -71,9 +71,10 @@ func mcPlan() []*mcRun {
 		{module: "CtxLock", cfg: "MC_ctxlock_defect_deaf.cfg", expect: "waiter-whose-context-ended-keeps-waiting"},
 		{module: "OuterCancel", cfg: ev.Pick("MC_outer_small.cfg", "MC_outer_big.cfg")},
 		{module: "OuterCancel", cfg: "MC_outer_small_shutdown.cfg"},
+		{module: "OuterCancel", cfg: "MC_outer_small_pc.cfg"}, // parent cancels
 		{module: "OuterCancel", cfg: "MC_outer_defect_erradmit.cfg", expect: "outer-writer-delayed-with-nothing-held"},
-		{module: "OuterCancel", cfg: "MC_outer_defect_delete_every.cfg", expect: "-after-grace"},
-		{module: "OuterCancel", cfg: "MC_outer_defect_autorelease.cfg", expect: "outer-writer-granted-before-grace-with-a-reader-still-holding"},
+		{module: "OuterCancel", cfg: "MC_outer_defect_autorelease.cfg", expect: "*"}, // granted-before-grace-with-a-reader-still-holding, or the reader seen admitted late
+		{module: "OuterCancel", cfg: "MC_outer_defect_noctx_on_send.cfg", expect: "waiter-whose-context-ended-keeps-waiting"},
 		{module: "OuterCancel", cfg: "MC_outer_defect_cancel_after_done.cfg", expect: "outer-writer-granted-before-reader-released-or-cancelled"},
 		{module: "OuterCancel", cfg: "MC_outer_defect.cfg", expect: "outer-reader-cancelled-before-grace-since-writer-asked"},
 	}
@@ -83,7 +84,9 @@ func mcPlan() []*mcRun {
 			&mcRun{module: "CtxLock", cfg: "MC_ctxlock_4g.cfg"},
 			&mcRun{module: "CmapMutex", cfg: "MC_cmap_small.cfg"},
 			&mcRun{module: "CmapMutex", cfg: "MC_cmap_small_2g.cfg"},
-			&mcRun{module: "OuterCancel", cfg: "MC_outer_huge.cfg"}, // 2 readers + 1 writer, grace 2, shutdown and parent cancels: 2.3 M states
+			&mcRun{module: "OuterCancel", cfg: "MC_outer_defect_delete_every.cfg", expect: "-after-grace"}, // 0.5 M states before the counterexample
+			&mcRun{module: "OuterCancel", cfg: "MC_outer_small.cfg"},
+			&mcRun{module: "OuterCancel", cfg: "MC_outer_mid.cfg"},
 			&mcRun{module: "OuterCancel", cfg: "MC_outer_g2.cfg"},
 			&mcRun{module: "OuterCancel", cfg: "MC_outer_2w.cfg"},
 			&mcRun{module: "OuterCancel", cfg: "MC_outer_2rounds.cfg"},
@@ -365,6 +368,15 @@ func outerScenarios(rng *rand.Rand) []scenario {
 		// the parent context ends while the RLock call is on its way
 		S("staged:reader-cancelled-during-the-call-then-lone-writer", NW(R("hold", 2)), PC(1), A(10), W(5), A(3*G))
 		S("staged:two-readers-cancelled-during-the-call-then-lone-writer", NW(R("hold", 2)), NW(R("hold", 3)), NW(PC(1)), PC(2), A(10), W(5), A(3*G))
+	}
+	// a waiter whose context ends stops waiting, also one that is still handing its request over: behind a writer that
+	// holds (or waits for its grace period) one acquisition is in the handler's hands, one sits in the 1-slot request
+	// channel, every further one is blocked on the channel
+	for _, second := range []ostep{R("hold", 5), W(5)} {
+		S("staged:cancel-of-readers-queued-behind-a-holding-writer", W(6*G), A(5), second, R("hold", 5), R("hold", 5), R("grace", 0), PC(4), A(1), PC(5), A(1), PC(3), A(8*G))
+		S("staged:cancel-of-readers-queued-behind-a-holding-writer", W(6*G), A(5), second, R("hold", 5), R("hold", 5), R("hold", 5), R("hold", 5), PC(6), PC(4), A(G), PC(5), A(8*G))
+		S("staged:precancelled-reader-queued-behind-a-holding-writer", W(6*G), A(5), second, R("hold", 5), R("precancelled", 0), R("hold", 5), A(1), PC(5), A(8*G))
+		S("staged:cancel-of-readers-queued-behind-a-waiting-writer", R("late", 2*G), A(5), W(5), second, R("hold", 5), R("hold", 5), R("hold", 5), PC(5), A(1), PC(6), A(8*G))
 	}
 	// a reader whose PARENT context ended while it holds is still holding: a writer waits for its release or for the grace period
 	for _, rk := range []ostep{R("hold", 3*G), R("hold", 10*G), R("late", 3*G), R("late", 20), R("grace", 0)} {
@@ -815,12 +827,26 @@ func TestCheck(t *testing.T) {
 		fmt.Printf("rejected runs per key: %v\n", seen)
 	}
 	var again []scenario
+	origOf := map[int]int{} // id of a repeated run -> id of the rejected run it repeats
+	wantKey := map[int]string{}
 	for _, k := range order {
 		for _, c := range cands[k] {
-			again = append(again, idx[c.r.Trace].sc)
+			sc := idx[c.r.Trace].sc
+			origOf[sc.ID] = sc.ID
+			wantKey[sc.ID] = k
+			again = append(again, sc)
+			if sc.Prim == "outercancel" && sc.Free {
+				// a free-running round shows an ordering of real processors with some probability only: repeated 6 times
+				for j := 1; j <= 5; j++ {
+					cp := sc
+					cp.ID = sc.ID + j*10_000_000
+					origOf[cp.ID] = sc.ID
+					again = append(again, cp)
+				}
+			}
 		}
 	}
-	rejAgain := map[int]string{} // scenario id -> key of the repeated run
+	rejAgain := map[int]string{} // id of a rejected run -> key of (one of) its repeated run(s) that was rejected for the same reason
 	if len(again) > 0 {
 		res2, err2 := runScenarios(again, ev.Pick(10, 12))
 		if err2 != nil {
@@ -846,7 +872,9 @@ func TestCheck(t *testing.T) {
 			if strings.HasPrefix(r.Why, "harness-") {
 				k = "harness:" + r.Why
 			}
-			rejAgain[tr.sc.ID] = k
+			if o := origOf[tr.sc.ID]; rejAgain[o] == "" || k == wantKey[o] {
+				rejAgain[o] = k
+			}
 		}
 		fmt.Printf("repeated %d rejected runs in fresh processes: %d rejected again\n", len(again), len(rej2))
 	}
